@@ -616,3 +616,91 @@ func regexMatchCall(e *Expr) (global string, arg *Expr, method string, ok bool) 
 	}
 	return recv.Name, e.Args[1], strings.TrimPrefix(n, pfx), true
 }
+
+// variadicArgs returns the elements of the variadic slice argument v when it
+// is built in place (new [n]T; stores; slice), in index order.
+func variadicArgs(v ssa.Value) ([]ssa.Value, bool) {
+	sl, ok := v.(*ssa.Slice)
+	if !ok {
+		if c, ok := v.(*ssa.Const); ok && c.Value == nil {
+			return nil, true // nil slice: no variadic arguments
+		}
+		return nil, false
+	}
+	al, ok := sl.X.(*ssa.Alloc)
+	if !ok {
+		return nil, false
+	}
+	arr, ok := al.Type().Underlying().(*types.Pointer).Elem().Underlying().(*types.Array)
+	if !ok {
+		return nil, false
+	}
+	out := make([]ssa.Value, arr.Len())
+	for _, ref := range *al.Referrers() {
+		switch r := ref.(type) {
+		case *ssa.IndexAddr:
+			idx, ok := r.Index.(*ssa.Const)
+			if !ok {
+				return nil, false
+			}
+			i, _ := constant.Int64Val(idx.Value)
+			for _, rr := range *r.Referrers() {
+				st, ok := rr.(*ssa.Store)
+				if !ok || st.Addr != r {
+					return nil, false
+				}
+				if out[i] != nil {
+					return nil, false
+				}
+				out[i] = st.Val
+			}
+		case *ssa.Slice:
+		default:
+			return nil, false
+		}
+	}
+	for _, o := range out {
+		if o == nil {
+			return nil, false
+		}
+	}
+	return out, true
+}
+
+// unIface strips MakeInterface.
+func unIface(v ssa.Value) ssa.Value {
+	if m, ok := v.(*ssa.MakeInterface); ok {
+		return m.X
+	}
+	return v
+}
+
+// parseFormat splits a fmt format into literal pieces and verbs ("%s", "%06X"…).
+func parseFormat(f string) (pieces, verbs []string) {
+	cur := ""
+	for i := 0; i < len(f); i++ {
+		if f[i] != '%' {
+			cur += string(f[i])
+			continue
+		}
+		if i+1 < len(f) && f[i+1] == '%' {
+			cur += "%"
+			i++
+			continue
+		}
+		j := i + 1
+		for j < len(f) && strings.IndexByte("+-# 0123456789.[]*", f[j]) >= 0 {
+			j++
+		}
+		if j < len(f) {
+			verbs = append(verbs, f[i:j+1])
+		} else {
+			verbs = append(verbs, f[i:])
+		}
+		pieces = append(pieces, cur)
+		cur = ""
+		i = j
+	}
+	pieces = append(pieces, cur)
+	return
+}
